@@ -232,3 +232,30 @@ Theorem C06_Q_nnchain_primitive : forall (p : profile) (rt : Q -> Q) meth s1 d1 
           f_ltb QF v w = false /\ f_ltb QF w v = false).
 Proof. exact Q_nnchain_primitive_same_hierarchy. Qed.
 Print Assumptions C06_Q_nnchain_primitive.
+
+(* ---- Method::Single: all five entry points cut into the same partitions at
+   every threshold, ties included (the identity permutation in
+   C11_single_perm_invariant; both are the threshold components of C04) ---- *)
+Require Import KV.Model.Linkage KV.Proofs.RelabelWF KV.Proofs.MstCuts KV.Proofs.PermSingle.
+Theorem C06_single_all_entry_points_same_cuts : forall (T : Type) (F : fops T) (p : profile),
+  (forall a, f_ltb F a a = false) ->
+  (forall a b c, f_ltb F a b = true -> f_ltb F b c = true -> f_ltb F a c = true) ->
+  (forall a b c, f_ltb F a b = false -> f_ltb F b c = false -> f_ltb F a c = false) ->
+  (forall a b, f_eqb F a b = true -> f_ltb F b a = false) ->
+  (forall a, f_eqb F a a = true) ->
+  forall (a a' : algo) s1 d1 s2 d2 (m : list T) n sr dr mr sr' dr' mr' M0,
+  run_with F p a Single s1 d1 m n = Ok (sr, dr, mr) ->
+  run_with F p a' Single s2 d2 m n = Ok (sr', dr', mr') ->
+  prologue p m n = Ok M0 -> 1 <= m_obs M0 ->
+  Forall (fun v => f_ltb F v (f_max F) = true) m -> Forall (fun v => f_ltb F v (f_inf F) = true) m ->
+  forall t : T, exists j j', cut_at (kops_of F Single) t j (heights dr) /\ cut_at (kops_of F Single) t j' (heights dr')
+    /\ forall x y, x < m_obs M0 -> y < m_obs M0 ->
+        (labi (m_obs M0) (d_steps dr') j' x = labi (m_obs M0) (d_steps dr') j' y
+         <-> labi (m_obs M0) (d_steps dr) j x = labi (m_obs M0) (d_steps dr) j y).
+Proof.
+  intros T F p H1 H2 H3 H4 H5 a a' s1 d1 s2 d2 m n sr dr mr sr' dr' mr' M0 Hr Hr' HM0 Hn Hmax Hinf t.
+  exact (@single_perm_invariant T F p H1 H2 H3 H4 H5 a a' (fun x => x) s1 d1 s2 d2 m m n sr dr mr sr' dr' mr' M0 M0
+           Hr Hr' HM0 HM0 eq_refl Hn Hmax Hinf Hmax Hinf (fun x Hx => Hx) (fun x y _ _ E => E)
+           (fun y Hy => ex_intro _ y (conj Hy eq_refl)) (fun x y _ _ => eq_refl) t).
+Qed.
+Print Assumptions C06_single_all_entry_points_same_cuts.
